@@ -19,7 +19,8 @@ TITLE = "'?' axes are per-leaf-position axes of exactly one structured PyTree"
 
 SPECS = [("arr", "?a"), ("arr", "*?v"), ("arr", "?a b"), ("arr", "?a ?a"), ("arr", "#?a"),
          ("union", [("arr", "?a 3"), ("arr", "?a b")]), ("tup", [("arr", "?a"), ("arr", "?a b")]),
-         ("tree", ("arr", "?a")), ("tree", ("arr", "b ?a")), ("arr", "?a *?v"), ("arr", "a ?a"), ("arr", "*#?v")]
+         ("tree", ("arr", "?a")), ("tree", ("arr", "b ?a")), ("arr", "?a *?v"), ("arr", "a ?a"), ("arr", "*#?v"),
+         ("tup", [("tree", ("arr", "?a")), ("arr", "?a b")])]
 SKELS = ["t1", "t2", "nest", "dict", "none", "node", "nt"]
 OTHER = {"t1": "t2", "t2": "nest", "nest": "t2", "dict": "nest", "none": "nt", "node": "t2", "nt": "node"}
 
@@ -63,7 +64,10 @@ def leaves_for(inst, V, tag, n, spec):
     out = []
     for i in range(n):
         if spec[0] == "tup":
-            out.append((V.arr([V.int(f"{tag}{i}_a", 0)]), V.arr([V.int(f"{tag}{i}_b", 0), V.int(f"{tag}{i}_c", 0)])))
+            first = V.arr([V.int(f"{tag}{i}_a", 0)])
+            if spec[1][0][0] == "tree":
+                first = [first, (V.arr([V.int(f"{tag}{i}_a2", 0)]),)]
+            out.append((first, V.arr([V.int(f"{tag}{i}_b", 0), V.int(f"{tag}{i}_c", 0)])))
             continue
         r = opts[V.choose(f"{tag}r{i}", len(opts))]
         leaf = V.arr([V.int(f"{tag}{i}_{j}", 0) for j in range(r)])
